@@ -28,15 +28,15 @@ def run(ctx):
     ctx.rule('C07.R5', 'reconcile_path never yields DeleteA/DeleteB when base is absent (decision DAG)', floor=1)
     ctx.rule('C07.R6', 'remove_file in the bisync call graph only on DeleteA/DeleteB arms of apply', floor=2)
     ctx.rule('C07.R7', 'the pair key hashes the symlink-resolved (canonicalized) roots: it identifies directories, not spellings', floor=2)
-    r1(ctx, F)
-    r7(ctx, F)
-    r2(ctx, F, ip)
-    r3(ctx, F, ip)
-    r4(ctx, F)
+    ctx.attempt(r1, ctx, F)
+    ctx.attempt(r7, ctx, F)
+    ctx.attempt(r2, ctx, F, ip)
+    ctx.attempt(r3, ctx, F, ip)
+    ctx.attempt(r4, ctx, F)
     from rules import C18
-    C18.no_delete_without_base(ctx, F, 'C07.R5')
+    ctx.attempt(C18.no_delete_without_base, ctx, F, 'C07.R5')
     from rules import C02
-    C02.deletes_only_on_delete_arms(ctx, F, 'C07.R6')
+    ctx.attempt(C02.deletes_only_on_delete_arms, ctx, F, 'C07.R6')
 
 
 def r1(ctx, F):
